@@ -149,35 +149,45 @@ Qed.
    parameters that are not inside VALUES (in particular: there are none) *)
 Definition uniform_ext (ps : list P) : Prop := forall p q, In p ps -> In q ps -> ext p = ext q.
 
-Lemma stmt_ext_uniform c ps bl b p : uniform_ext ps -> concat (map b_items bl) = ps -> In b bl ->
+(* ... or every statement carries one parameter set anyway (row-at-a-time mode, e.g. an upsert whose
+   SET clause has bound parameters) *)
+Definition ext_guard (c : config) (ps : list P) : Prop :=
+  fst (decide_mode (c_sbo c) (c_flags c)) = true \/ uniform_ext ps.
+
+Lemma stmt_ext_uniform c ps bl b p : ext_guard c ps -> concat (map b_items bl) = ps -> In b bl ->
+  (fst (decide_mode (c_sbo c) (c_flags c)) = true -> length (b_items b) = 1%nat) ->
   b_items b <> [] -> In p (b_items b) -> stmt_ext ext c ps b = Some (ext p).
 Proof.
-  intros Hu Hcat Hb Hne Hp. unfold stmt_ext.
+  intros Hg Hcat Hb Hrow Hne Hp. unfold stmt_ext.
   assert (Hpin : In p ps). { rewrite <- Hcat. apply in_concat. exists (b_items b). split; [apply in_map; exact Hb|exact Hp]. }
-  destruct (c_named c).
-  - destruct ps as [|q r]; [destruct Hpin|]. cbn. f_equal. apply Hu; [left; reflexivity|exact Hpin].
-  - destruct (b_items b) as [|q r] eqn:E; [congruence|]. cbn. f_equal. apply Hu; [|exact Hpin].
-    rewrite <- Hcat. apply in_concat. exists (q :: r). split; [rewrite <- E; apply in_map; exact Hb|left; reflexivity].
+  destruct (fst (decide_mode (c_sbo c) (c_flags c))) eqn:Hm.
+  - rewrite andb_false_r. specialize (Hrow eq_refl).
+    destruct (b_items b) as [|q [|? ?]]; try discriminate. destruct Hp as [->|[]]. reflexivity.
+  - destruct Hg as [Hg|Hu]; [discriminate|]. rewrite andb_true_r. destruct (c_named c).
+    + destruct ps as [|q r]; [destruct Hpin|]. cbn. f_equal. apply Hu; [left; reflexivity|exact Hpin].
+    + destruct (b_items b) as [|q r] eqn:E; [congruence|]. cbn. f_equal. apply Hu; [|exact Hpin].
+      rewrite <- Hcat. apply in_concat. exists (q :: r). split; [rewrite <- E; apply in_map; exact Hb|left; reflexivity].
 Qed.
 
 (* the n-th returned row belongs to the n-th parameter set *)
 Theorem execute_sorted_guarded (c : config) (ps : list P) :
   1 <= c_batch_size c -> clamp_pre c -> wf_config c ->
   c_is_returning c = true -> c_imv_sbo c = true -> result_columns (c_flags c) = true ->
-  sentinel_hyp c ps -> uniform_ext ps ->
+  sentinel_hyp c ps -> ext_guard c ps ->
   o_result (execute c ps) = Ok (map (fun p => row_of (Some (ext p)) p) ps) /\
   concat (map b_items (o_executed (execute c ps))) = ps.
 Proof.
   intros Hbs Hpre Hwf Hret Hsbo Hrc Hsent Hu.
   destruct (execute_sorted_general c ps Hbs Hpre Hwf Hret Hsbo Hrc Hsent) as (bl & Hplan & Hcat & Hex).
-  destruct (plan_spec c ps Hbs Hpre) as (bl' & Hplan' & _ & _ & Hall & _).
+  destruct (plan_spec c ps Hbs Hpre) as (bl' & Hplan' & _ & _ & Hall & Hrow).
   rewrite Hplan in Hplan'. inversion Hplan'; subst bl'. clear Hplan'.
   rewrite Hex. cbn [o_result o_executed]. split; [|exact Hcat]. f_equal.
   assert (E : map (fun p => row_of (Some (ext p)) p) ps
               = map (fun p => row_of (Some (ext p)) p) (concat (map b_items bl))) by (rewrite Hcat; reflexivity).
   rewrite E. rewrite concat_map, map_map. f_equal. apply map_ext_in. intros b Hb.
   eapply Forall_forall in Hall; [|exact Hb]. destruct Hall as (Hne & _).
-  apply map_ext_in. intros p Hp. rewrite (stmt_ext_uniform c ps bl b p Hu Hcat Hb Hne Hp). reflexivity.
+  apply map_ext_in. intros p Hp. rewrite (stmt_ext_uniform c ps bl b p Hu Hcat Hb) ; [reflexivity| |exact Hne|exact Hp].
+  intros Hm. eapply Forall_forall in Hrow; [exact Hrow|exact Hm|exact Hb].
 Qed.
 
 (* without sentinel columns the rows are delivered as fetched: exactly one per parameter set, in
@@ -197,13 +207,13 @@ Proof.
 Qed.
 
 Theorem execute_unsorted_perm (c : config) (ps : list P) :
-  1 <= c_batch_size c -> clamp_pre c -> c_is_returning c = true -> c_num_sentinel c = 0 -> uniform_ext ps ->
+  1 <= c_batch_size c -> clamp_pre c -> c_is_returning c = true -> c_num_sentinel c = 0 -> ext_guard c ps ->
   exists rows, o_result (execute c ps) = Ok rows /\
     Permutation (map (fun p => row_of (Some (ext p)) p) ps) rows /\
     concat (map b_items (o_executed (execute c ps))) = ps.
 Proof.
   intros Hbs Hpre Hret H0 Hu.
-  destruct (plan_spec c ps Hbs Hpre) as (bl & Hplan & Hcat & _ & Hall & _).
+  destruct (plan_spec c ps Hbs Hpre) as (bl & Hplan & Hcat & _ & Hall & Hrow).
   unfold IMV.execute. rewrite Hplan.
   destruct (deliver_perm c ps Hret H0 bl 0%nat [] []) as (rows & H1 & H2).
   rewrite H1. cbn [o_result o_executed rev app]. exists rows. split; [reflexivity|]. split; [|exact Hcat].
@@ -213,7 +223,8 @@ Proof.
   rewrite E. rewrite concat_map, map_map.
   apply Permutation_refl'. f_equal. apply map_ext_in. intros b Hb.
   eapply Forall_forall in Hall; [|exact Hb]. destruct Hall as (Hne & _).
-  apply map_ext_in. intros p Hp. rewrite (stmt_ext_uniform c ps bl b p Hu Hcat Hb Hne Hp). reflexivity.
+  apply map_ext_in. intros p Hp. rewrite (stmt_ext_uniform c ps bl b p Hu Hcat Hb) ; [reflexivity| |exact Hne|exact Hp].
+  intros Hm. eapply Forall_forall in Hrow; [exact Hrow|exact Hm|exact Hb].
 Qed.
 
 End Whole.
